@@ -94,7 +94,8 @@ def reify_world(ns_classes):
             todo[4] = cls
     for cid, cls in sorted(todo.items()):
         ob = cls.__dict__.get('__orig_bases__')
-        world.append([cid, None if ob is None else [enc_base(b) for b in ob], [ids.get(k, 999) for k in cls.__mro__]])
+        world.append([cid, None if ob is None else [enc_base(b) for b in ob], [ids.get(k, 999) for k in cls.__mro__],
+                      [tok_of(t) for t in getattr(cls, '__parameters__', ())]])
     return world
 
 
